@@ -56,7 +56,9 @@ def RULE(tier):
             "is (in-memory content, durable (ordinal, value) list read straight through lmdb, stale flag) and states are "
             "deduplicated on it, so every (reached state, event) pair is executed once per shard. After EVERY operation: return "
             "value, list(q), len, count, durable raw content, sdb.get(key), sdb cnt and the stale flag are compared with a "
-            "Python list / insertion-ordered-set model; 'reopen' must come back with exactly the model's content."
+            "Python list / insertion-ordered-set model; 'reopen' must come back with exactly the model's content. The same search to "
+            "depth-2 from queues built with values (A, AA, AB, BAB) BEFORE they are assigned into the Hold, i.e. that hold content "
+            "(with duplicates) when they first become durable."
             % (DEPTH(tier), [" ".join(e) for e in EVENTS["durq"]], [" ".join(e) for e in EVENTS["dusq"]]))
 
 
@@ -76,13 +78,23 @@ def jobs(tier):
         for flav in ("mix", "ice", "reg"):
             for k in range(n):
                 out.append((kind, flav, k, n))
+    # queues that already hold values (with duplicates) when they first become durable, to a smaller depth
+    for kind in ("durq", "dusq"):
+        for flav in ("ice", "reg"):
+            for pre in PRELOADS:
+                out.append((kind, flav, 0, 1, pre))
     return out
+
+
+PRELOADS = ["A", "AA", "AB", "BAB"]
 
 
 # ------------------------------------------------------------------------------------------------ real system
 class QSys:
-    def __init__(self, sb, kind, flav):
+    def __init__(self, sb, kind, flav, preload=""):
         self.sb, self.kind = sb, kind
+        self.preload = preload          # values the queue holds BEFORE it is assigned into the Hold (first open only)
+        self.handed = []                # the caller's own value objects given to the constructor
         self.vals = FLAVOURS[flav]
         self.lab = {}
         for name, (cls, v) in self.vals.items():
@@ -106,7 +118,12 @@ class QSys:
         self.sb.under(self.sub.path)
         self.hold = Hold()
         self.hold["_hold_subery"] = self.sub
-        self.q = Durq() if self.kind == "durq" else Dusq()
+        if self.preload:
+            self.handed = [self.val(c) for c in self.preload]
+            self.q = Durq(self.handed) if self.kind == "durq" else Dusq(self.handed)
+            self.preload = ""
+        else:
+            self.q = Durq() if self.kind == "durq" else Dusq()
         self.hold[QKEY] = self.q      # Hold.__setitem__ -> inject -> sync
         self.sdb = self.sub.drqs if self.kind == "durq" else self.sub.dsqs
 
@@ -262,20 +279,32 @@ def compare(kind, ev, o, model, hist):
     return v
 
 
-def execute(sb, kind, flav, hist, last_only):
+def execute(sb, kind, flav, hist, last_only, preload=""):
     """replays hist on a fresh store; returns (state key, violations, observation).
 
     Cascades are cut: (1) an operation that raises is ONE failure (its message says whether it left a partial effect);
     (2) once the two copies disagree (possible only after a reported violation) behaviour is unspecified, so nothing is
     checked until they agree again; (3) after a violation the model follows the implementation."""
     sb.wipe()
-    s = QSys(sb, kind, flav)
+    s = QSys(sb, kind, flav, preload)
     try:
         model = []
+        for c in preload:
+            if kind == "durq" or c not in model:
+                model.append(c)
         viols = []
         o = observe(s)
         if not hist:
             viols.extend(compare(kind, ("init",), o, model, hist))
+            if preload and kind == "dusq" and any(hasattr(x, "__dataclass_fields__") and not type(x).__dataclass_params__.frozen for x in s.handed):
+                # the set keeps its own copies of what it was built from: the caller changing ITS objects afterwards changes nothing
+                for x in s.handed:
+                    if not type(x).__dataclass_params__.frozen:
+                        x.v = 99
+                o2 = observe(s)
+                if o2 != o:
+                    viols.append(("aliases-caller-values:dusq:preload", "after the caller changed the objects it had built Dusq(%s) from, "
+                                  "the queue reads %r (before %r)" % (preload, o2["mem"], o["mem"])))
         res = None
         for i, ev in enumerate(hist):
             ev = tuple(ev)
@@ -315,19 +344,24 @@ def execute(sb, kind, flav, hist, last_only):
 
 
 def run_job(job, tier, seed):
-    kind, flav, k, n = job
+    kind, flav, k, n = job[:4]
+    pre = job[4] if len(job) > 4 else ""
     acc = Acc(job)
     with Sandbox(TAG) as sb:
         def run(hist):
-            return execute(sb, kind, flav, hist, last_only=True)
-        bfs(acc, run, lambda hist, key: EVENTS[kind], maxdepth=DEPTH(tier), first=(int(k), int(n)))
+            return execute(sb, kind, flav, hist, last_only=True, preload=pre)
+        if pre:
+            bfs(acc, run, lambda hist, key: EVENTS[kind], maxdepth=DEPTH(tier) - 2)
+        else:
+            bfs(acc, run, lambda hist, key: EVENTS[kind], maxdepth=DEPTH(tier), first=(int(k), int(n)))
     return acc.result()
 
 
 def replay(job, hist):
     kind, flav = job[0], job[1]
+    pre = job[4] if len(job) > 4 else ""
     with Sandbox(TAG) as sb:
-        return execute(sb, kind, flav, [tuple(e) for e in hist], last_only=False)[1]
+        return execute(sb, kind, flav, [tuple(e) for e in hist], last_only=False, preload=pre)[1]
 
 
 def finish(total, tier):
